@@ -43,8 +43,44 @@ def run(ctx):
             add_contract_cases(b, rng)
         lay = docs.Layout() if rng.random() < 0.5 else harness.random_layout(rng)
         cases.append((doc, docs.render(doc, lay)[0]))
-    # ---- hunter: real loads vs intended structure
+    # ---- the contract's special cases, one by one, with the intended dictionary written out (independent of the
+    # random documents, so that each clause is exercised in every run)
     import mappyfile
+    from collections import OrderedDict as OD
+    special = [
+        ("pattern-twice", "STYLE PATTERN 5 5 2.5 1 END PATTERN 9 8 END END", OD([("__type__", "style"), ("pattern", [[9, 8]])])),
+        ("pattern-once", "STYLE PATTERN 5 5 2.5 1 END END", OD([("__type__", "style"), ("pattern", [[5, 5], [2.5, 1]])])),
+        ("points-once", "FEATURE POINTS 1 2 3.5 4 END END", OD([("__type__", "feature"), ("points", [[1, 2], [3.5, 4]])])),
+        ("points-twice", "FEATURE POINTS 1 2 END POINTS 3 4 5 6 END END", OD([("__type__", "feature"), ("points", [[[1, 2]], [[3, 4], [5, 6]]])])),
+        ("points-thrice", "FEATURE POINTS 1 2 END POINTS 3 4 END POINTS 5 6 END END", OD([("__type__", "feature"), ("points", [[[1, 2]], [[3, 4]], [[5, 6]]])])),
+        ("keyword-twice", "MAP NAME 'a' DEBUG 1 NAME 'b' END", OD([("__type__", "map"), ("name", "b"), ("debug", 1)])),
+        ("metadata-key-twice", "MAP METADATA 'Dup' '1' 'other' 'v' \"dup\" '2' END END",
+         OD([("__type__", "map"), ("metadata", OD([("dup", "2"), ("other", "v"), ("__type__", "metadata")]))])),
+        ("config-keys", "MAP CONFIG 'MS_ERRORFILE' 'stderr' CONFIG 'PROJ_LIB' '/p' CONFIG 'ms_errorfile' 'last' END",
+         OD([("__type__", "map"), ("config", OD([("ms_errorfile", "last"), ("proj_lib", "/p")]))])),
+        ("repeated-keyword-list", "LAYER TYPE POINT PROCESSING 'A=1' PROCESSING 'B=2' PROCESSING 'A=1' END",
+         OD([("__type__", "layer"), ("type", "POINT"), ("processing", ["A=1", "B=2", "A=1"])])),
+        ("repeatable-blocks-in-order", "MAP LAYER NAME 'l1' END NAME 'm' LAYER NAME 'l2' END END",
+         OD([("__type__", "map"), ("layers", [OD([("__type__", "layer"), ("name", "l1")]), OD([("__type__", "layer"), ("name", "l2")])]), ("name", "m")])),
+        ("singleton-last-wins", "MAP WEB IMAGEPATH '/a' END WEB IMAGEURL '/b' END END", OD([("__type__", "map"), ("web", OD([("__type__", "web"), ("imageurl", "/b")]))])),
+        ("projection-strings", "MAP PROJECTION 'proj=utm' \"zone=15\" END END", OD([("__type__", "map"), ("projection", ["proj=utm", "zone=15"])])),
+        ("numbers-typed", "MAP MAXSIZE 2 RESOLUTION 2.0 ANGLE -3 DEFRESOLUTION 1e2 END", OD([("__type__", "map"), ("maxsize", 2), ("resolution", 2.0), ("angle", -3), ("defresolution", 100.0)])),
+        ("booleans", "SYMBOL FILLED TRUE ANTIALIAS false END", OD([("__type__", "symbol"), ("filled", True), ("antialias", False)])),
+        ("hex-lowercased", "MAP IMAGECOLOR '#FF00AA' END", OD([("__type__", "map"), ("imagecolor", "#ff00aa")])),
+        ("hex-alpha-lowercased", "STYLE COLORRANGE \"#FF00AACC\" '#00FFAAcc' END", OD([("__type__", "style"), ("colorrange", ["#ff00aacc", "#00ffaacc"])])),
+        ("quotes-only-outer", "MAP NAME \"it's 'x'\" SHAPEPATH 'say \"y\"' END", OD([("__type__", "map"), ("name", "it's 'x'"), ("shapepath", 'say "y"')])),
+        ("keys-lowercased", "map Name 'x' LAYER nAmE 'l' END end", OD([("__type__", "map"), ("name", "x"), ("layers", [OD([("__type__", "layer"), ("name", "l")])])])),
+    ]
+    for name, text, want in special:
+        ctx.note_case(("special", name), nontrivial=True)
+        try:
+            got = docs.plain(mappyfile.loads(text))
+        except Exception as ex:
+            ctx.violation("contract-special:" + name, "%r is rejected: %s" % (text, type(ex).__name__), {"text": text})
+            continue
+        if not sweep.same(got, want):
+            ctx.violation("contract-special:" + name, "loads(%r) = %r, the documented contract gives %r" % (text, got, want), {"text": text})
+    # ---- hunter: real loads vs intended structure
     n_obj = 0
     for i, (doc, text) in enumerate(cases):
         want = [docs.intended_block(b) for b in doc] if isinstance(doc, list) else docs.intended_block(doc)
